@@ -14,14 +14,20 @@ var AvoidUnresolvableCalleeOrder = true
 // when a run reaches such a construct the interpretation is abandoned ("known-finding:<id>", out of domain).
 // Each switch is removed again (set false) when the fix is merged; see known-findings.d/C02.json.
 var Known = struct {
-	SurplusArgs      bool // C02-surplus-args-spill: a call passes more arguments than the callee has formal parameters
-	PrimitiveRefSet  bool // C02-property-reference-base: strict-mode write through a destructuring / logical-assignment / for-head target on a primitive base
-	NullBaseRefOrder bool // C02-property-reference-base: such a target on an undefined / null base
-	ConstTDZAssign   bool // C02-const-tdz-assign: assignment to a const binding inside its temporal dead zone
-	MulNegZero       bool // C02-int-mul-negzero: a multiplication of integers that yields -0
-	EvalVarFuncName  bool // C02-eval-var-function-expression-name: a sloppy direct eval declares a var/function named like the enclosing named function expression
-	MappedArgsEval   bool // C02-mapped-arguments-eval-var: a sloppy direct eval declares a var/function in a function that has a mapped arguments object
-}{false, false, false, false, false, true, false} // (MappedArgsEval fixed too) the first five are fixed in /repo (386f001, 5d89e51, const-tdz): traps off
+	SurplusArgs             bool // C02-surplus-args-spill: a call passes more arguments than the callee has formal parameters
+	PrimitiveRefSet         bool // C02-property-reference-base: strict-mode write through a destructuring / logical-assignment / for-head target on a primitive base
+	NullBaseRefOrder        bool // C02-property-reference-base: such a target on an undefined / null base
+	ConstTDZAssign          bool // C02-const-tdz-assign: assignment to a const binding inside its temporal dead zone
+	MulNegZero              bool // C02-int-mul-negzero: a multiplication of integers that yields -0
+	ComputedKeyOverAccessor bool // C02-computed-key-over-accessor: object literal {get p(){}, [k]: v} with k == "p"
+	EvalVarFuncName         bool // C02-eval-var-function-expression-name: a sloppy direct eval declares a var/function named like the enclosing named function expression
+	MappedArgsEval          bool // C02-mapped-arguments-eval-var: a sloppy direct eval declares a var/function in a function that has a mapped arguments object
+}{
+	// still listed in known-findings.d/C02.json:
+	ComputedKeyOverAccessor: true,
+	EvalVarFuncName:         true,
+	// the others were fixed in /repo (386f001, 5d89e51, 510ab8b, f4667a3, 68e2c4f): traps off
+}
 
 func (it *Interp) trap(on bool, id string) {
 	if on {
@@ -824,6 +830,9 @@ func (it *Interp) evalObject(n *Node, ctx *execCtx) Value {
 		default:
 			if p.Has(FComputed) {
 				key := it.toPropertyKey(it.eval(p.A, ctx))
+				if pr := o.getOwn(key); pr != nil && pr.accessor {
+					it.trap(Known.ComputedKeyOverAccessor, "C02-computed-key-over-accessor")
+				}
 				var v Value
 				if isAnonFn(p.B) {
 					v = it.evalFnNamed(p.B, ctx, key.s)
